@@ -249,6 +249,52 @@ int main(int argc, char **argv)
         else r.count("jacobian_checked");
       }
     }
+    // ---------- (4) alchemical variable: the "atoms" are the engine's lambda; its force is -dE/dlambda ----------
+    if (shard == 0) {
+      static const double G[3][5] = {{0, 0, 0, 0, 0}, {0.8, -0.3, 1.7, 0.4, -1.1}, {-1.6, 0.6, -3.4, -0.8, 2.2}};  // dE/dlambda histories; G[2] = -2 G[1]
+      for (int sub = 0; sub <= 1; sub++)
+        for (int ss = 0; ss <= 1; ss++) {
+          std::vector<std::vector<double>> tot(3);
+          bool failed = false;
+          for (int gi = 0; gi < 3 && !failed; gi++) {
+            std::string det = std::string("{\"component\":\"alchLambda (extended-Lagrangian)\",\"subtractAppliedForce\":") + (sub ? "true" : "false") + ",\"timing\":\"" + (ss ? "same-step" : "lagged") +
+                              "\",\"dE_dlambda_history\":[" + num(G[gi][0]) + "," + num(G[gi][1]) + "," + num(G[gi][2]) + "," + num(G[gi][3]) + "," + num(G[gi][4]) + "]";
+            r.count("evaluations");
+            vproxy *px = new vproxy(2, ss != 0);
+            px->set_target_temperature(300.0);
+            px->alch_enabled = true;
+            px->alch_lambda = 0.3;
+            std::string conf = std::string("colvar {\n name l\n width 0.1\n lowerBoundary 0.0\n upperBoundary 1.0\n extendedLagrangian on\n extendedMass 2000.0\n") +
+                               (sub ? " subtractAppliedForce on\n" : "") + " alchLambda {\n }\n}\nharmonic {\n name h\n colvars l\n centers 0.7\n forceConstant 0.02\n}\n";
+            if (px->config(conf) != 0) {
+              // the engine simulator supports alchemy: a refusal means the variable cannot measure its total force at all
+              r.violation("C07:alchLambda:variable-cannot-be-defined", det + ",\"error\":\"" + jesc(px->errtxt.substr(0, 200)) + "\"}");
+              delete px; failed = true; break;
+            }
+            for (int st = 0; st < 5 && !failed; st++) {
+              px->alch_dEdl = G[gi][st];
+              if (px->step(st) != 0) { r.violation("C07:error-during-run:alchLambda", det + ",\"error\":\"" + jesc(px->errtxt.substr(0, 200)) + "\"}"); failed = true; break; }
+              r.count("transitions");
+              colvar *cv = px->cv("l");
+              double xl = cv->value().real_value;                 // extended coordinate at this step
+              double fb = -(0.02 / (0.1 * 0.1)) * (xl - 0.7);     // restraint force (force constant scaled with the width)
+              // the engine applies nothing on Colvars' behalf here (lambda is driven, not pushed): the force acting on the
+              // variable at this step is the engine's -dE/dlambda alone, whatever the bias does to the fictitious mass
+              (void) fb;
+              double expect = -G[gi][st];
+              double got = cv->total_force().real_value;
+              tot[gi].push_back(got);
+              if (!close_rel(got, expect, std::max(1.0, std::fabs(expect)), 1e-10, 1e-12)) {
+                r.violation(std::string("C07:alchLambda:total-force-differs-from-minus-dE-dlambda-of-the-same-step") + (sub ? ":subtractAppliedForce" : ""),
+                            det + ",\"step\":" + std::to_string(st) + ",\"reported\":" + num(got) + ",\"expected\":" + num(expect) + ",\"bias_force\":" + num(fb) + "}");
+                failed = true;
+              }
+            }
+            if (!failed) { r.seen("nontrivial", fnv(det)); r.seen("states", fnv(det + num(tot[gi].back()))); }
+            delete px;
+          }
+        }
+    }
   }, total, 7200);
   if (!ok) return 2;
   write_result(args.out, "C07", args.tier, total, true);
